@@ -670,6 +670,12 @@ def _arith(I, op, a, b):
             x, y = zreal(a), zreal(b)
             kind = 'real'
         t = x + y if isinstance(op, ast.Add) else x - y if isinstance(op, ast.Sub) else x * y
+        if isinstance(op, ast.Mult) and kind == 'real' and isinstance(a, SV) and isinstance(b, SV) \
+                and not z3.is_rational_value(z3.simplify(x)) and not z3.is_rational_value(z3.simplify(y)):
+            # nonlinear product: give the solver the sign rule of the reals (valid facts, not assumptions)
+            I.st.assume(z3.And((t == 0) == z3.Or(x == 0, y == 0),
+                               z3.Implies(z3.Or(z3.And(x > 0, y > 0), z3.And(x < 0, y < 0)), t > 0),
+                               z3.Implies(z3.Or(z3.And(x > 0, y < 0), z3.And(x < 0, y > 0)), t < 0)))
         return SV(z3.simplify(t), kind)
     if isinstance(op, ast.Div):
         y = zreal(b)
